@@ -114,6 +114,8 @@ int g_t0;			/* data->access_time on entry */
 	__CPROVER_object_whole(g_cbuf[6]), __CPROVER_object_whole(g_cbuf[7])
 #define IDX_OK(c) ((c) == &E(0) || (c) == &E(1) || (c) == &E(2) || (c) == &E(3) || (c) == &E(4) || (c) == &E(5) || \
 		   (c) == &E(6) || (c) == &E(7))
+/* same fact as IDX_OK's disjunction, in the constructive form that tells the symbolic executor which object the pointer is in */
+#define IN_CACHE(c) __CPROVER_pointer_in_range_dfcc(&E(0), (c), &E(7))
 #define NOT_THIS(i) (!(E(i).in_use && E(i).block == block))
 #define UNUSED_OR_OLDER(i, c) (!E(i).in_use || (c)->access_time <= E(i).access_time)
 #define ATIME_OK(data) ((data)->access_time >= 0 && (data)->access_time < 0x7fffff00)
@@ -205,9 +207,9 @@ static struct unix_cache *find_cached_block(struct unix_private_data *data, unsi
 					    struct unix_cache **eldest)
 	REQUIRES(eldest == 0 || __CPROVER_w_ok(eldest, sizeof(*eldest)))
 	REQUIRES(ATIME_OK(data))
-	ENSURES(RET == 0 || (IDX_OK(RET) && RET->in_use && RET->block == block))
+	ENSURES(RET == 0 || (IN_CACHE(RET) && IDX_OK(RET) && RET->in_use && RET->block == block))
 	ENSURES(RET != 0 || ALL(NOT_THIS))
-	ENSURES(RET != 0 || eldest == 0 || (IDX_OK(*eldest) &&
+	ENSURES(RET != 0 || eldest == 0 || (IN_CACHE(*eldest) && IDX_OK(*eldest) &&
 		(!(*eldest)->in_use || (ALL(INUSE) &&
 		 UNUSED_OR_OLDER(0, *eldest) && UNUSED_OR_OLDER(1, *eldest) && UNUSED_OR_OLDER(2, *eldest) && UNUSED_OR_OLDER(3, *eldest) &&
 		 UNUSED_OR_OLDER(4, *eldest) && UNUSED_OR_OLDER(5, *eldest) && UNUSED_OR_OLDER(6, *eldest) && UNUSED_OR_OLDER(7, *eldest)))))
